@@ -344,6 +344,29 @@ def quantity_label(chk, F):
                        "names a different dimensionality than the value and unit printed next to it" % why)
     if n < 4:
         chk.anchor_lost("quantity-label", "runtime/substance.rs", "expected 4 writes of NumberParts.quantity in substance.rs, found %d" % n)
+    # `substance -> <constant> <unit>`: the ratio branch rebuilds the reply from a value that was already divided by the whole
+    # target (constant included) and relabels it with the target's *names*; the target's constant must then be shown too
+    m = 0
+    for fn in F.by_crate[CORE]:
+        if not fn.file.endswith("runtime/substance.rs") or "get_in_unit::{closure" not in fn.path:
+            continue
+        writes = {}
+        for i, j, st in fn.stmts():
+            if st["k"] == "assign" and "a" in st["rv"]:
+                for pr in st["place"]["p"]:
+                    if isinstance(pr, dict) and pr.get("of", "").endswith("NumberParts") and pr.get("f") in ("quantity", "factor", "divfactor"):
+                        writes.setdefault(pr["f"], []).append((i, j, ap_str(fn.apath(st["rv"]["a"]))))
+        if "quantity" not in writes:
+            continue
+        m += 1
+        ok = all(any("Context::show(" in src and src.rstrip().endswith("." + f) for _, _, src in writes.get(f, [])) for f in ("factor", "divfactor"))
+        i, j, _ = writes["quantity"][0]
+        chk.decide(ok, "factor-never-dropped", "rink_core::" + k1norm(fn.path), "ratio-reply-keeps-target-constant", fn.where(i, j),
+                   "the ratio reply takes factor and divfactor from Context::show(.., bottom_const, ..) of the same target",
+                   "a ratio property of `substance -> <constant> <unit>` is printed with the target's unit names but without the target's constant: "
+                   "the value was divided by the constant, so numeral x unit is off by that factor (`water -> 2 kg`)")
+    if m < 2:
+        chk.anchor_lost("factor-never-dropped", "Substance::get_in_unit", "expected the two ratio branches of get_in_unit, found %d" % m)
 
 
 def k1gen(fn):
